@@ -449,6 +449,7 @@ EGLPNUM_TYPENAME_QSLIB_INTERFACE int EGLPNUM_TYPENAME_QSopt_pivotin_row (
 {
 	int basismod = 0;
 	int rval = 0;
+	int i;
 
 	rval = check_qsdata_pointer (p);
 	CHECKRVALG (rval, CLEANUP);
@@ -456,6 +457,22 @@ EGLPNUM_TYPENAME_QSLIB_INTERFACE int EGLPNUM_TYPENAME_QSopt_pivotin_row (
 	if (p->pricing == 0)
 	{
 		ILL_ERROR (rval, "pricing info not available in EGLPNUM_TYPENAME_QSopt_pivotin_row\n");
+	}
+
+	if (p->lp->basisid == -1 || p->lp->vstat == 0)
+	{
+		QSlog("no basis available in EGLPNUM_TYPENAME_QSopt_pivotin_row");
+		rval = 1;
+		goto CLEANUP;
+	}
+	for (i = 0; i < rcnt; i++)
+	{
+		if (rlist[i] < 0 || rlist[i] >= p->qslp->nrows)
+		{
+			QSlog("entry %d in rlist out of range", i);
+			rval = 1;
+			goto CLEANUP;
+		}
 	}
 
 	rval = EGLPNUM_TYPENAME_ILLsimplex_pivotin (p->lp, p->pricing, rcnt, rlist,
@@ -477,6 +494,8 @@ EGLPNUM_TYPENAME_QSLIB_INTERFACE int EGLPNUM_TYPENAME_QSopt_pivotin_col (
 {
 	int basismod = 0;
 	int rval = 0;
+	int i;
+	int *ilist = 0;
 
 	rval = check_qsdata_pointer (p);
 	CHECKRVALG (rval, CLEANUP);
@@ -486,7 +505,31 @@ EGLPNUM_TYPENAME_QSLIB_INTERFACE int EGLPNUM_TYPENAME_QSopt_pivotin_col (
 		ILL_ERROR (rval, "pricing info not available in QSopt_pivotin\n");
 	}
 
-	rval = EGLPNUM_TYPENAME_ILLsimplex_pivotin (p->lp, p->pricing, ccnt, clist,
+	if (p->lp->basisid == -1 || p->lp->vstat == 0)
+	{
+		QSlog("no basis available in EGLPNUM_TYPENAME_QSopt_pivotin_col");
+		rval = 1;
+		goto CLEANUP;
+	}
+	for (i = 0; i < ccnt; i++)
+	{
+		if (clist[i] < 0 || clist[i] >= p->qslp->nstruct)
+		{
+			QSlog("entry %d in clist out of range", i);
+			rval = 1;
+			goto CLEANUP;
+		}
+	}
+	/* the simplex code wants internal column numbers, the caller gives
+	 * indices of structural columns */
+	if (ccnt > 0)
+	{
+		ILL_SAFE_MALLOC (ilist, ccnt, int);
+		for (i = 0; i < ccnt; i++)
+			ilist[i] = p->qslp->structmap[clist[i]];
+	}
+
+	rval = EGLPNUM_TYPENAME_ILLsimplex_pivotin (p->lp, p->pricing, ccnt, ilist,
 														 SIMPLEX_PIVOTINCOL, &basismod);
 	CHECKRVALG (rval, CLEANUP);
 
@@ -495,6 +538,7 @@ EGLPNUM_TYPENAME_QSLIB_INTERFACE int EGLPNUM_TYPENAME_QSopt_pivotin_col (
 
 CLEANUP:
 
+	ILL_IFFREE (ilist);
 	EG_RETURN (rval);
 }
 
